@@ -39,7 +39,7 @@ from core.report import Result
 
 from .c05_alias import check_architecture_untouched
 from .c05_detector import check_detector
-from .c05_lowering import check_are_named, check_delegation, check_filter_selection, check_layer_mapping_current, check_matcher_wiring
+from .c05_lowering import check_are_named, check_delegation, check_filter_selection, check_handoff_accumulates, check_layer_mapping_current, check_matcher_wiring
 from .c05_matcher import check_conversion_map_complete, check_layer_mapping_update, check_regex_resolution_per_evaluation
 from .c05_names import check_layer_lookup_names
 from .common import dotted, stmt_of, where
@@ -155,6 +155,7 @@ def run(repo: Repo) -> Result:
     check_layer_mapping_current(repo, res)
     receiver = check_are_named(repo, res)
     check_filter_selection(repo, res, receiver)
+    check_handoff_accumulates(repo, res, receiver)
     # ---- R8
     check_architecture_untouched(repo, res)
     # ---- R6
